@@ -895,7 +895,37 @@ func c3Structured() []c3Fault {
 		v := hex.EncodeToString(world.RawSig(s.Keys[4], other))
 		r.SigString = &v
 	})
+	// a genuine signature with bytes appended (1 … 64 more, zero or random): not the signature of the response
+	for _, extra := range []int{1, 2, 32, 64} {
+		extra := extra
+		add("signature:genuine-with-bytes-appended", -1, func(rng *rand.Rand, s *world.Spec, q bool) {
+			r, _ := respOf(s, q)
+			tail := hx.RandBytes(rng, extra)
+			if rng.IntN(2) == 0 {
+				tail = make([]byte, extra)
+			}
+			r.SigMut = func(b []byte) []byte { return append(append([]byte{}, b...), tail...) }
+		})
+	}
+	add("signature:genuine-with-a-byte-prepended", -1, func(rng *rand.Rand, s *world.Spec, q bool) {
+		r, _ := respOf(s, q)
+		r.SigMut = func(b []byte) []byte { return append([]byte{0}, b...) }
+	})
 	// ---- document identity
+	add("doc:id-and-version-of-the-other-document", -1, func(rng *rand.Rand, s *world.Spec, q bool) { // a correctly signed document of the other kind's id/version
+		if q {
+			s.Qe.ID, s.Qe.Version = "TDX", 3
+		} else {
+			s.Tcb.ID, s.Tcb.Version = "TD_QE", 2
+		}
+	})
+	add("doc:id-of-the-other-document", -1, func(rng *rand.Rand, s *world.Spec, q bool) {
+		if q {
+			s.Qe.ID = "TDX"
+		} else {
+			s.Tcb.ID = "TD_QE"
+		}
+	})
 	add("doc:wrong-id", -1, func(rng *rand.Rand, s *world.Spec, q bool) {
 		if q {
 			s.Qe.ID = []string{"QE", "TD_QE2", "td_qe", "TDX", ""}[rng.IntN(5)]
